@@ -31,6 +31,7 @@ pub struct RStats {
     pub route_failed: u64,
     pub capacity: u64,
     pub noise_sets: u64,
+    pub thread_hops: u64,
 }
 
 impl RStats {
@@ -54,6 +55,7 @@ impl RStats {
         self.route_failed += o.route_failed;
         self.capacity += o.capacity;
         self.noise_sets += o.noise_sets;
+        self.thread_hops += o.thread_hops;
     }
     pub fn pairs(&self) -> Vec<(&'static str, u64)> {
         vec![
@@ -78,6 +80,7 @@ impl RStats {
             ("route_failed_fallback", self.route_failed),
             ("capacity_churn", self.capacity),
             ("history_noise_sets", self.noise_sets),
+            ("caller_thread_hops", self.thread_hops),
         ]
     }
 }
